@@ -320,6 +320,49 @@ func H_C01_Ante() {
 	rt.Reach("end")
 }
 
+// H_C01_AnteRollback: the decorator chain is a long-lived object shared by CheckTx, simulation and
+// DeliverTx. Node A's chain first sees a transaction that it REJECTS (mempool check on a branch
+// that is thrown away), then both nodes deliver the same second transaction from the same committed
+// state — node B with a freshly constructed chain (a restarted node). Anything a decorator keeps in
+// memory from the rejected transaction makes the nodes diverge.
+func H_C01_AnteRollback() {
+	now := AnyBlockTime("now")
+	ae := NewAnteEnv(now, true)
+	setupBooksOpt(ae.E, false)
+	ae.Bank.AddBase(Addr(0))
+	ae.Bank.Fund(Addr(0), "nund", rt.BigInt("payer.liquid", 0, 128))
+	owner := Addr(0).String()
+	mod := rt.Choose(2)
+	purchase := func(tag string) sdk.Msg {
+		if mod == 0 {
+			return &wrktypes.MsgPurchaseWrkChainStateStorage{WrkchainId: ae.WID, Number: rt.U64(tag + ".slots"), Owner: owner}
+		}
+		return &beacontypes.MsgPurchaseBeaconStateStorage{BeaconId: ae.BID, Number: rt.U64(tag + ".slots"), Owner: owner}
+	}
+	tx1 := &model.Tx{Msgs: []sdk.Msg{purchase("t1")}, Fee: sdk.Coins{sdk.NewCoin("nund", rt.BigInt("t1.fee", 1, 128))}, Payer: Addr(0), Gas: 200000}
+	tx2 := &model.Tx{Msgs: []sdk.Msg{purchase("t2")}, Fee: sdk.Coins{sdk.NewCoin("nund", rt.BigInt("t2.fee", 1, 128))}, Payer: Addr(0), Gas: 200000}
+	a, b := forkEnvMode(ae.Env, false), forkEnvMode(ae.Env, false)
+	ca, cb := anteChainOn(ae, a), anteChainOn(ae, b)
+	// node A: mempool check of tx1 on a scratch branch of the state; only rejections that moved no
+	// funds are considered (the ledger model is not branched)
+	ledger := a.Bank.Clone()
+	scratch := rt.NewContext(a.MS.Snapshot(), now, 10, true)
+	var err1 error
+	pan1 := rt.Catch(func() { _, err1 = ca(scratch, tx1, false) })
+	rt.Assume(pan1 || err1 != nil)
+	rt.Assume(a.Bank.SameAs(ledger))
+	rt.Reach("first-tx-rejected")
+	var errA, errB error
+	panA := rt.Catch(func() { _, errA = ca(a.Ctx, tx2, false) })
+	rt.EnvBarrier()
+	panB := rt.Catch(func() { _, errB = cb(b.Ctx, tx2, false) })
+	assertSame("restart.ante", a, b, errA, errB, panA, panB, true)
+	if !panA && errA == nil {
+		rt.Reach("second-tx-admitted")
+	}
+	rt.Reach("end")
+}
+
 // Restart safety / no state outside the stores: node A executes a state-changing message whose
 // transaction then FAILS (its store branch is discarded, as baseapp does), and goes on to execute
 // a second message; node B is started freshly from the committed database (new keeper objects)
